@@ -15,6 +15,10 @@ E2: bounded exhaustive input enumeration, five families.
   * ropts  : written files x every read option (model incl. out of range, altloc, extra_fields
              subsets, use_author_fields, include_bonds).
   * nonuniq: residues that are not uniquely identifiable: InvalidFileError or the exact bonds.
+  * reuse  : two set_structure() calls on ONE file / block object (same block, two blocks, block object,
+             lazily parsed file, compressed file), every ordered pair of a 7-structure palette, with and
+             without a read in between; oracle = a fresh object that only saw the last structure;
+             refused calls must leave the object unchanged.
   * big    : chains of 1250-66000 hetero residues whose (struct_conn rows x atoms) product lies on both
              sides of the reader's 4 000 000 switch between dense and dictionary partner matching.
 Every written file with bonds is also inspected row by row (struct_conn / chem_comp_bond rows must be
@@ -2435,6 +2439,8 @@ def bounds(tier):
         "ropts": {"files": len(ROPT_VARIANTS), "models": "None, 1..m, -m..-1, 0, m+1, -(m+1), -(m+2)",
                   "altloc": 3, "use_author_fields": 2, "include_bonds": 2, "extra_fields": "every subset of 5 (4)"},
         "nonuniq": {"cases": sum(1 for _ in nonuniq_cases())},
+        "reuse": {"palette": len(REUSE_PALETTE), "kinds": list(REUSE_KINDS), "ordered_pairs": len(REUSE_PALETTE) ** 2,
+                  "mid_read": 2, "refusals": list(REFUSALS)},
         "big": {"cases": len(big_cases(tier)), "atoms": "2000-2002" + (", 1250, 4000, 66000" if tier == "thorough" else ""),
                 "struct_conn_rows_x_atoms": "both sides of 4 000 000 (3 998 000 ... 4 002 000)",
                 "compressed_encoding": "2 cases" if tier == "quick" else "all"},
@@ -2454,7 +2460,8 @@ RULE = (
     "classified by the position of the bond in the input (intra / standard polymer link / other inter-residue) and "
     "the way it differs. sel / indep: case = one model-written table (text and BinaryCIF) x one option set; every "
     "call counts; the oracle is a per-residue recomputation from the get_structure documentation. ropts: one call "
-    "per (written file, option set). big: case = (chain of N one- or two-atom residues, number q of inter-residue "
+    "per (written file, option set). reuse: case = (kind of reuse, first structure, last structure, read in between "
+    "or not) resp. (first structure, refused call, same / new block), each in text and BinaryCIF. big: case = (chain of N one- or two-atom residues, number q of inter-residue "
     "bonds incl. first-atom/last-atom bonds, array or 2-model stack), q x atoms chosen on both sides of "
     "FIND_MATCHES_SWITCH_THRESHOLD; complete comparison as in annot. Distinct outcomes = distinct (case, result) pairs resp. distinct decoded "
     "structures."
